@@ -412,6 +412,43 @@ def run(ctx: Any, prog: Program) -> None:
                 ctx.check('C17.N8', bool(stores), ins, h, f'a keyvalue the entity definition does not list is skipped without storing the substituted text: `"{{key}}" "$var"` keeps the literal `$var` in the collapsed map',
                           text='unknown keys keep the substituted text')
 
+    # ---- N9: the classname table that decides "name or class" keyvalues is independent of the maps involved -----------------------------------
+    # "collapsing ... in any order and at any placement gives results that differ only by that placement": fixup_key leaves a
+    # TARGET_NAME_OR_CLASS value alone iff it is in the table it is given.  A table read from the target map (or the template) makes
+    # that depend on what was collapsed or placed there before.
+    ctx.rule('C17.N9', 'the classname table collapse_one hands to fixup_key is not derived from the target map, the instance or the template', floor=1)
+    map_params = [a.arg for a in co.args.args[:3]]
+    fk_calls = [c for c in ast.walk(co) if isinstance(c, ast.Call) and isinstance(c.func, ast.Attribute) and c.func.attr == 'fixup_key']
+    ctx.shape('C17.N9', bool(fk_calls) and len(map_params) == 3, ins, co, 'no fixup_key() call in collapse_one', text='fixup_key call')
+    local_defs: Dict[str, List[ast.AST]] = {}
+    for n in ast.walk(co):
+        if isinstance(n, ast.Assign):
+            for t in n.targets:
+                if isinstance(t, ast.Name):
+                    local_defs.setdefault(t.id, []).append(n.value)
+        elif isinstance(n, (ast.AnnAssign, ast.NamedExpr)) and isinstance(n.target, ast.Name) and n.value is not None:
+            local_defs.setdefault(n.target.id, []).append(n.value)
+
+    def _reads_maps(e: ast.AST, seen: Set[str]) -> Optional[str]:
+        for x in ast.walk(e):
+            if isinstance(x, ast.Name) and isinstance(x.ctx, ast.Load):
+                if x.id in map_params:
+                    return U(e)[:60]
+                if x.id in local_defs and x.id not in seen:
+                    for d in local_defs[x.id]:
+                        r_ = _reads_maps(d, seen | {x.id})
+                        if r_:
+                            return f'{x.id} = {r_}'
+        return None
+    for c in fk_calls:
+        arg = c.args[1] if len(c.args) >= 2 else next((k.value for k in c.keywords if k.arg == 'classnames'), None)
+        if arg is None or any(isinstance(a, ast.Starred) for a in c.args):
+            ctx.shape('C17.N9', False, ins, c, f'classnames argument of `{U(c)[:60]}` not found', text='fixup_key classnames argument')
+            continue
+        src_ = _reads_maps(arg, set())
+        ctx.check('C17.N9', src_ is None, ins, c, f'the table of known classnames given to fixup_key (`{U(arg)[:50]}`) is computed from collapse_one\'s own maps (`{src_}`): whether a name-or-class value is renamed '
+                  'then depends on which entities the map already holds, i.e. on earlier collapses and their order', text='classname table independent of the maps')
+
     # ---- N7: keyvalues are fixed up only after every entity (and so every face) has been copied -------------------------------------------
     # side lists (`sides`) are remapped through inst.face_ids, which the copies fill: the collection the fix-up loop walks has to be complete
     # before the loop starts.  A generator that copies on demand interleaves the two, and an overlay placed before the brush it refers to
@@ -690,6 +727,8 @@ def n6_substitute(ctx: Any, vm: Any) -> None:
 
 
 MUTANTS = [
+    {'id': 'classnames_from_target_map', 'file': 'instancing.py', 'find': "inst.fixup_key(vmf, EntityDef.engine_classes(), kv.type, value)", 'replace': "inst.fixup_key(vmf, vmf.by_class, kv.type, value)", 'expect': 'C17.N9'},
+    {'id': 'ok_classnames_via_local', 'file': 'instancing.py', 'find': "    new_ents: list[Entity] = []\n", 'replace': "    new_ents: list[Entity] = []\n    known_classes = EntityDef.engine_classes()\n", 'extra': [{'file': 'instancing.py', 'find': "inst.fixup_key(vmf, EntityDef.engine_classes(), kv.type, value)", 'replace': "inst.fixup_key(vmf, known_classes, kv.type, value)"}], 'expect': None, 'note': 'negative control: the engine table hoisted into a local'},
     {'id': 'unknown_key_skipped_when_already_warned', 'file': 'instancing.py', 'find': "                if (classname, key) not in _UNKNOWN_KV:\n                    LOGGER.warning('Unknown keyvalue {}.{}', classname, key)\n                    _UNKNOWN_KV.add((classname, key))\n                # We don't know the type", 'replace': "                if (classname, key) in _UNKNOWN_KV:\n                    continue\n                LOGGER.warning('Unknown keyvalue {}.{}', classname, key)\n                _UNKNOWN_KV.add((classname, key))\n                # We don't know the type", 'expect': 'C17.N8'},
     {'id': 'fixup_key_blank_early_out', 'file': 'instancing.py', 'find': "        # All three of these types are absolute positions.\n        if type is ValueTypes.VEC or", 'replace': "        if not value:\n            return value\n        # All three of these types are absolute positions.\n        if type is ValueTypes.VEC or", 'expect': 'C17.N3'},
     {'id': 'angles_parsed_from_raw_text', 'file': 'instancing.py', 'find': "        angles = Angle.from_str(inst.fixup.substitute(new_ent['angles'], ''))", 'replace': "        angles = Angle.from_str(new_ent['angles'])", 'expect': 'C17.N8'},
